@@ -70,16 +70,19 @@ def sigma(n, A, A2, ctl_param_angles=None, max_ctl=3):
     return out
 
 
+SMALL_ANGLES = [0.012, 2e-4]     # rare outcomes: p = sin^2(angle/2) = 3.6e-5 and 1e-8 (above every documented threshold)
+
+
 def ctl_angles(A):
     """Angle alphabet of controlled rotations at depth 1: the two generic values plus both sides of the 2*pi and 4*pi
     periods (a controlled rotation is 4*pi-periodic: any 2*pi-wrap of its angle flips the sign of the control=1 branch)."""
-    return [A[1], A[2], 2 * PI + 0.61, 4 * PI - 0.3, -2 * PI - 0.7, 2 * PI, -2 * PI]
+    return [A[1], A[2], 2 * PI + 0.61, 4 * PI - 0.3, -2 * PI - 0.7, 2 * PI, -2 * PI, SMALL_ANGLES[0]]
 
 
 def sigma_d1(n, A, backend="cirq"):
     if backend == "sympy" and n == 4:
         return sigma(n, A[1:3], A[1:2])
-    return sigma(n, A, A[1:3], ctl_param_angles=ctl_angles(A), max_ctl=(3 if backend == "cirq" else 2 if n >= 3 else 3))
+    return sigma(n, list(A) + SMALL_ANGLES, A[1:3], ctl_param_angles=ctl_angles(A), max_ctl=(3 if backend == "cirq" else 2 if n >= 3 else 3))
 
 
 def reduced(n, A2):
@@ -343,6 +346,68 @@ def check_history(case, acc):
     acc.out((bname, "history-ok"))
 
 
+CIRC_OPS = ["add", "par", "reidx", "trim", "addhi"]
+
+
+def check_circuit_history(case, acc):
+    """E2-style: ONE Circuit object is simulated, modified in place (gate added, variational parameter written, qubits re-indexed or
+    trimmed) and simulated again, on one shared backend: every simulation must be that of the gate list as it is NOW."""
+    from tangelo.linq import get_backend, Circuit, Gate
+    bname = case["backend"]
+    be = get_backend(bname)
+    order = be.backend_info()["statevector_order"]
+    tol = TOL if bname == "cirq" else TOL_SYMPY
+    A = angles(case.get("seed", 0))
+    c = Circuit([Gate("RY", 0, parameter=A[1], is_variational=True), Gate("CNOT", 2, 0), Gate("X", 2), Gate("RX", 2, parameter=A[2])])
+    par_vals = [A[2], 2 * PI + 0.61, A[1]]
+    npar = 0
+
+    def sim(step):
+        n = c.width
+        word = [SV.desc(g) for g in c._gates]
+        psi_ref = SV.run(word, n)
+        acc.ev()
+        try:
+            freqs, sv = be.simulate(c, return_statevector=True)
+            freqs = {k: num(v) for k, v in freqs.items() if num(v) > 1e-9}
+            svn = np.array(np.asarray(sv).tolist(), dtype=complex).reshape(-1)
+        except Exception as e:
+            acc.violation(f"{bname}/circuit-history/exception", case, {"step": step, "err": repr(e)[:300]}, group=f"{bname}/circuit-history/exception")
+            return False
+        f_ref = {k: v for k, v in SV.freqs(psi_ref, n).items() if v > 1e-9}
+        if freq_diff(freqs, f_ref) > tol or svn.size != 2 ** n or SV.dist_up_to_phase(SV.from_order(svn, n, order), psi_ref) > tol:
+            acc.violation(f"{bname}/circuit-history/simulation-is-not-that-of-the-current-gate-list", case,
+                          {"step": step, "gates_now": word, "got": freqs, "ref": f_ref}, group=f"{bname}/circuit-history/stale")
+            return False
+        return True
+
+    if not sim(-1):
+        return
+    for step, op in enumerate(case["history"]):
+        acc.transitions += 1
+        try:
+            if op == "add":
+                c.add_gate(Gate("H", 1))
+            elif op == "addhi":
+                c.add_gate(Gate("CNOT", c.width, 0))
+            elif op == "par":
+                c._variational_gates[0].parameter = par_vals[npar % 3]      # how the ansatz classes write new values
+                npar += 1
+            elif op == "reidx":
+                k = len(c._qubit_indices)
+                c.reindex_qubits([(i + 1) % k for i in range(k)])
+            elif op == "trim":
+                c.trim_qubits()
+        except Exception as e:
+            acc.violation(f"{bname}/circuit-history/operation-raises/{op}", case, {"step": step, "err": repr(e)[:300]},
+                          group=f"{bname}/circuit-history/operation-raises")
+            return
+        if c.width > 4 or not sim(step):
+            return
+    acc.nt((bname, "circuit-history", tuple(case["history"])))
+    acc.out((bname, "circuit-history-ok"))
+
+
 def check_sampled(case, acc):
     """E3: n_shots in {1,2}; scripted scipy sampler; every sample sequence."""
     from tangelo.linq import get_backend
@@ -492,6 +557,9 @@ def shards(tier, seed):
     # idle qubits: register wider than the highest index, gate on the highest index only
     sh.append({"kind": "idle", "seed": seed})
     sh.append({"kind": "empty", "seed": seed})
+    for first in CIRC_OPS:
+        sh.append({"kind": "circuit_history", "backend": "cirq", "first": first, "seed": seed, "L": 4 if tier == "quick" else 5})
+        sh.append({"kind": "circuit_history", "backend": "sympy", "first": first, "seed": seed, "L": 2 if tier == "quick" else 3})
     for first in range(7):
         sh.append({"kind": "history", "backend": "cirq", "first": first, "seed": seed, "L": 3 if tier == "quick" else 4})
         sh.append({"kind": "history", "backend": "sympy", "first": first, "seed": seed, "L": 2 if tier == "quick" else 3})
@@ -587,6 +655,12 @@ def run_shard(sh):
                                    "want_sv": True}, acc)
         # (the sympy backend ignores n_shots and returns exact frequencies: no sampled mode to explore there)
         acc.sample({"kind": "sampled", "word": [al[0], al[2]], "n": 2, "n_shots": 2})
+    elif k == "circuit_history":
+        for l in range(0, sh["L"]):
+            for rest in itertools.product(CIRC_OPS, repeat=l):
+                acc.states += 1
+                check_circuit_history({"kind": "circuit_history", "backend": sh["backend"], "history": [sh["first"]] + list(rest), "seed": seed}, acc)
+        acc.sample({"kind": "circuit_history", "backend": sh["backend"], "history": [sh["first"], "reidx", "par"]}, cap=1)
     elif k == "history":
         for l in range(1, sh["L"]):
             for rest in itertools.product(range(7), repeat=l):
@@ -615,6 +689,8 @@ def replay_case(case):
         check_sampled_bulk(case, acc)
     elif k == "history":
         check_history(case, acc)
+    elif k == "circuit_history":
+        check_circuit_history(case, acc)
     return acc
 
 
